@@ -37,3 +37,36 @@ def run_host(case):
         pass        # the host check's own problems are reported by the host check
     # keep the scratch context small
     ctx.violations.clear(); ctx.samples.clear(); ctx.monitor_errors.clear()
+
+
+def ambient_case(pid):
+    return {'kind': 'ambient', 'seed': 0, 'params': {'monitor': pid}}
+
+
+def run_ambient(ctx, pid, timeout=900):
+    """W-amb: the repository's own test-suite under the probe layer with this property's monitor (subprocess);
+    the monitor's observations are merged into ctx"""
+    import os, sys, json, subprocess, tempfile
+    from . import boot
+    repo = boot.repo_path()
+    with tempfile.TemporaryDirectory(prefix='adsan_amb_') as td:
+        out = os.path.join(td, 'amb.json')
+        env = dict(os.environ, ALGOPY_VERIF='1', ADSAN_MONITORS=pid, ADSAN_OUT=out, PYTHONPATH=boot.VERIF, PYTHONDONTWRITEBYTECODE='1')
+        r = subprocess.run([sys.executable, '-m', 'pytest', '-q', '-p', 'no:cacheprovider', '-p', 'adsan.pytest_plugin', 'algopy', '--timeout=300'],
+                           cwd=repo, env=env, stdout=subprocess.PIPE, stderr=subprocess.STDOUT, text=True, timeout=timeout)
+        if not os.path.exists(out):
+            ctx.monitor_error('ambient', RuntimeError('no plugin output: ' + r.stdout[-300:])); return
+        d = json.load(open(out))
+    if not os.path.realpath(d['algopy_file']).startswith(repo + os.sep):
+        ctx.monitor_error('ambient', RuntimeError('ambient run imported %s' % d['algopy_file'])); return
+    c = d['ctx'][pid]
+    cases = ctx.cases
+    ctx.merge(c)
+    ctx.cases = cases
+    ctx.extra['ambient_probe_calls'] = d['probe_calls']
+    ctx.extra['ambient_repo_tests'] = ([l for l in r.stdout.splitlines() if ' passed' in l or ' failed' in l] or [''])[-1].strip()
+    if d['pytest_exit'] != 0:
+        # the instrumentation must be transparent: a failing repository test under the probe layer is a harness problem
+        ctx.monitor_error('ambient', RuntimeError('repository tests fail under the probe layer: ' + ctx.extra['ambient_repo_tests']))
+        return
+    ctx.ok('ambient', ('ambient', pid))
